@@ -129,6 +129,12 @@ func init() {
 	wrap("strings.TrimSpace", func(e *Engine, st *State, c *callCtx) bool {
 		cv, ok := symCV(e, st, c, 0)
 		if !ok {
+			if t, isT := c.args[0].(*Term); isT && !t.K && debugTrace {
+				println("TRIMSPACE non-cv:", t.S)
+				for _, p := range t.parts {
+					println("   part:", p.S, p.K, p.code != nil)
+				}
+			}
 			return false
 		}
 		c.ret(st, cvTerm(e.cvTrimSpace(cv)))
